@@ -36,9 +36,9 @@ func markPrunedPart(thorough bool) *result {
 	work, _ := new(big.Int).SetString("d167cf38dd7a9c078a40d5", 16)
 	const fed, kept = 1500, 300
 	lowest := fed - kept // index of the lowest header held after the clean
-	marks := []int{lowest + 200, lowest + 1, lowest, lowest - 1, lowest - 200, 900}
+	marks := []int{lowest + 200, lowest + 147, lowest + 146, lowest + 145, lowest + 1, lowest, lowest - 1, lowest - 200, 900}
 	if thorough {
-		marks = append(marks, lowest+150, lowest+146, lowest+2, lowest-2, lowest-146, lowest-147, lowest-148, 1000, 769, 400)
+		marks = append(marks, lowest+150, lowest+148, lowest+144, lowest+2, lowest-2, lowest-146, lowest-147, lowest-148, 1000, 769, 400)
 	}
 	for _, m := range marks {
 		repo := headers.NewRepository(headers.DefaultConfig(), vstore.New())
